@@ -157,6 +157,21 @@ pub fn single_limit(t: &Target, len: usize) -> usize {
     }
 }
 
+/// Run `f` under the limit of a non-decompressing target (max(64 MiB, 1024·len)) whatever the
+/// current target's own limit is: the parsing step of a parse-then-decompress target. The
+/// documented 1 GiB cap is about decompression buffers; a header table sized from a count field
+/// is "out of proportion to the input" long before that.
+pub fn with_strict_alloc<T>(len: usize, f: impl FnOnce() -> T) -> T {
+    let strict = (64usize << 20).max(1024usize.saturating_mul(len));
+    let prev = LIMIT_SINGLE.load(Ordering::Relaxed);
+    if strict < prev {
+        LIMIT_SINGLE.store(strict, Ordering::Relaxed);
+    }
+    let r = f();
+    LIMIT_SINGLE.store(prev, Ordering::Relaxed);
+    r
+}
+
 /// live-bytes ceiling: generous multiple of the single-request limit
 pub fn live_limit(t: &Target, len: usize) -> usize {
     single_limit(t, len).saturating_mul(4)
